@@ -1,7 +1,7 @@
 (* Property theorems of the Pool cluster (C16..C21). Nothing but statements, [exact], and
    Print Assumptions. *)
 From FC Require Import Pool.Model Pool.ProofsBase Pool.ProofsCore Pool.ProofsRemoval Pool.ProofsOps
-  Pool.ProofsInsert Pool.ProofsCheck Pool.Proofs18 Pool.Proofs19 Pool.Proofs20.
+  Pool.ProofsInsert Pool.ProofsCheck Pool.Proofs18 Pool.Proofs19 Pool.Proofs20 Pool.Proofs21.
 Open Scope N_scope.
 
 (* ------------------------------------------------------------------ *)
@@ -32,7 +32,7 @@ Proof. exact core_inv_no_conflict_all. Qed.
 Print Assumptions core_inv_no_conflict.
 
 (* soundness of the checker evaluated on the implementation's dumped state *)
-Theorem pool_invb_no_conflict : forall p, pool_invb p = true ->
+Theorem pool_invb_no_conflict : forall ex p, pool_invb_gen ex p = true ->
   NoDup (tids (txs (p_g p))) /\ NoConflict (txs (p_g p)) /\
   p_gas p = sumN (map t_gas (txs (p_g p))) /\ p_bytes p = sumN (map t_size (txs (p_g p))) /\
   p_stats p = (lenN (p_txmap p), p_bytes p, p_gas p).
@@ -65,6 +65,22 @@ Theorem remove_subtree_exact : forall g root g' rm pan, remove_subtree g root = 
   Rem g g' rm /\ ~ In root (tids (txs g')).
 Proof. exact remove_subtree_rem. Qed.
 Print Assumptions remove_subtree_exact.
+
+(* meaning of the graph checkers of C17 that are evaluated on every trace *)
+Theorem inv_edges_sound_acyclic : forall g, inv_edges g = true -> forall a, ~ Reach g a a.
+Proof. exact inv_edges_acyclic. Qed.
+Print Assumptions inv_edges_sound_acyclic.
+
+Theorem cascadeb_sound : forall s, cascadeb s = true <->
+  forall p c, In (p, c) (g_edges (pre_g s)) -> has_node (post_g s) p = false ->
+              ~ In p (included s) -> has_node (post_g s) c = false.
+Proof. exact cascadeb_spec. Qed.
+Print Assumptions cascadeb_sound.
+
+Theorem parents_first_sound : forall g xs seen, parents_first g seen xs = true ->
+  forall l1 x l2, xs = l1 ++ x :: l2 -> forall p, In p (parents g x) -> In p seen \/ In p l1.
+Proof. exact parents_first_spec. Qed.
+Print Assumptions parents_first_sound.
 
 (* ------------------------------------------------------------------ *)
 (* C18. For EVERY pool state satisfying the core invariant and every constraint value, the
@@ -173,9 +189,28 @@ Proof. exact process_block_inv. Qed.
 Print Assumptions block_preserves_core.
 
 (* ------------------------------------------------------------------ *)
-(* C21 (partial: proved for the removal primitive and for remove_transactions_and_dependents, i.e.
-   expiry and skipped transactions; for the other paths exactly-once reporting is checked by
-   [step21] on every trace). *)
+(* C21. For EVERY worker operation from EVERY state (no invariant needed):
+   - insert accepted: the evicted transactions (collided subtrees, limit eviction) are removed and
+     reported in one squeezed-out call right after the Submitted status; rejected: pool unchanged;
+   - extraction / block import / preconfirmation / expiry: the transactions leaving the pool split
+     into [inc] (handed out, committed by the block, preconfirmed - all among the operation's
+     included ids, never reported) and [rep] whose ids are exactly the ids reported as squeezed
+     out during the operation.
+   [leaves_exactly_once]: such a split means every stored transaction either stays, or left as
+   included, or left and was reported - exactly one of them, and no id is reported twice. *)
+Theorem squeezed_exactly_once : forall w o, step_reports w o.
+Proof. exact step_reports_all. Qed.
+Print Assumptions squeezed_exactly_once.
+
+Theorem leaves_exactly_once : forall p p' inc rep, Leaves p p' inc rep ->
+  NoDup (map n_id inc ++ map n_id rep) /\
+  (exists evs, p_log p' = p_log p ++ evs /\ sq_ids evs = map n_id rep) /\
+  forall x, In x (txs (p_g p)) ->
+    (In x (txs (p_g p')) /\ ~ In (t_id x) (map n_id inc) /\ ~ In (t_id x) (map n_id rep)) \/
+    (~ In x (txs (p_g p')) /\ (In (t_id x) (map n_id inc) \/ In (t_id x) (map n_id rep))).
+Proof. exact Leaves_exactly_once_all. Qed.
+Print Assumptions leaves_exactly_once.
+
 Theorem expiry_reports_exactly : forall ids p reason,
   exists removed,
     p_log (remove_transactions_and_dependents p ids reason) = p_log p ++ squeezed_event reason removed /\
